@@ -287,9 +287,10 @@ class Parser:
             return E("cast", ty, [e], extra=u)
         if u == "INTERVAL":
             v = self.primary()
+            unit = "DAY"
             if self.peek() is not None and self.peek().kind == "ident" and self.up() in ("DAY", "DAYS", "MONTH", "MONTHS", "YEAR", "YEARS"):
-                self.eat()
-            return E("call", "interval", [v])
+                unit = self.eat().up.rstrip("S")
+            return E("call", "interval", [v], extra=unit)
         if t.kind in ("ident", "qident"):
             if self.peek() is not None and self.peek().text == "(":
                 self.eat("(")
